@@ -47,6 +47,8 @@ pub struct FnSpec {
     pub attrs: Vec<String>,
     pub external: bool,
     pub no_unwind: bool,
+    /// properties whose cone contains this function even without a tagged clause
+    pub cone: Vec<String>,
     pub spec_file: String,
     pub spec_line: usize,
 }
@@ -180,6 +182,7 @@ pub fn parse_file(path: &str) -> Vec<Item> {
                     "as" => fs.out_name = Some(rest),
                     "ret" => fs.ret = Some(rest),
                     "external" => fs.external = true,
+                    "cone" => { let (tags, _) = split_tags(&rest); fs.cone = tags; }
                     "no_unwind" => fs.no_unwind = true,
                     "attr" => fs.attrs.push(rest),
                     "req" => {
